@@ -354,6 +354,14 @@ def gen_directed(rng):
     if use_init and 0 in a_tabs:
         ci = [i for i, o in enumerate(a_prog) if o["op"] == "commit"][0]
         a_prog.insert(ci, dict(op="markdone", tx=a_prog[0]["tx"], t=0, name="a"))
+    if rng.random() < 0.2:
+        # a transaction that writes no object but changes the table entry all the same (a change iterator is
+        # registered, an initializer completed): it holds its tables until its root is stored like any other
+        keep = [o for o in a_prog if o["op"] in ("wtxn", "markdone", "commit")]
+        g.niter += 1
+        g.iters[g.niter] = dict(t=a_tabs[0], st="open", tx=None, lastgen=10 ** 9)
+        keep.insert(1, dict(op="changes", tx=a_prog[0]["tx"], t=a_tabs[0], it=g.niter))
+        a_prog = keep
     actors = [dict(name="A", prog=a_prog)]
     others = []
     kind = rng.choice(["writer-disjoint", "writer-overlap", "registrar", "registrar", "reader", "all"])
@@ -394,6 +402,12 @@ def gen_directed(rng):
         g.q(g.snap_src(s), t, "id", "all", [])
         g.scalar(g.snap_src(s), t, "rev")
     g.chans()
+    for it, d in g.iters.items():
+        if d["st"] == "open":
+            d["lastgen"] = -1
+            s2 = g.snap()
+            g.next(it, src=g.snap_src(s2), take=-1)
+            g.iterclose(it)
     return [dict(op="sched", setup=setup, actors=actors, schedule=sched, finish=g.ops, gc=False, nilempty=False)]
 
 
